@@ -13,9 +13,10 @@ cp tests/seed_demo.rs "$OUT/seed_demo.rs"
 [ -f meta.txt ] && cp meta.txt "$OUT/meta.txt"
 SUITE=$(cargo test --offline --lib 2>&1 | grep "^test result" | head -1)
 DEMO_WITH=$(cargo test --offline --test seed_demo 2>&1 | grep "^test result" | head -1)
-git stash push -q -- rust
+# (git stash is shared between the worktrees of one repository: reverse-apply the saved patch instead)
+git apply -R "$OUT/patch.diff"
 DEMO_WITHOUT=$(cargo test --offline --test seed_demo 2>&1 | grep "^test result" | head -1)
-git stash pop -q
+git apply "$OUT/patch.diff"
 python3 - "$OUT" "$PROP" "$SUITE" "$DEMO_WITH" "$DEMO_WITHOUT" <<'PY'
 import json, sys, os
 out, prop, suite, dw, dwo = sys.argv[1:6]
@@ -23,7 +24,7 @@ meta = {"property": prop,
         "needs_to_manifest": open(os.path.join(out, "meta.txt")).read() if os.path.exists(os.path.join(out, "meta.txt")) else "",
         "confirmed": {"pinned_suite_with_change": suite, "demo_with_change": dw, "demo_without_change": dwo,
                       "commands": ["cargo test --offline --lib", "cargo test --offline --test seed_demo",
-                                   "git stash push -- rust; cargo test --offline --test seed_demo; git stash pop"]},
+                                   "git apply -R patch.diff; cargo test --offline --test seed_demo; git apply patch.diff"]},
         "ok": ("229 passed; 0 failed" in suite) and ("FAILED" in dw or "failed" in dw and " 0 failed" not in dw) and (" 0 failed" in dwo and "ok" in dwo)}
 json.dump(meta, open(os.path.join(out, "meta.json"), "w"), indent=1)
 print(out, meta["ok"], "|", suite, "|", dw, "|", dwo)
